@@ -158,7 +158,7 @@ fn wave_case() -> impl Strategy<Value = WaveCase> {
         0u8..5,
         any::<u64>(),
         any::<bool>(),
-        -8i8..=8,
+        prop_oneof![3 => -8i8..=8, 2 => -120i8..=120],
         any::<bool>(),
     )
         .prop_map(|(len, mut pulses, noise_kind, noise_seed, round, scale_exp, tail)| {
@@ -274,7 +274,7 @@ fn block_case(c: &BlockCase, ev: &mut Ev) -> Outcome {
 }
 
 fn block_strategy() -> impl Strategy<Value = BlockCase> {
-    (0u16..256, prop_oneof![2 => 1u16..=8, 3 => 9u16..=64, 1 => 65u16..=255, 1 => Just(256u16)], 30u16..200, any::<u64>(), 0u8..5, -8i8..=8, prop_oneof![10 => Just(0u8), 1 => Just(1u8), 1 => Just(2u8)]).prop_map(|(start, len, bins, seed, noise_kind, scale_exp, quiet)| BlockCase { start, len, bins, seed, noise_kind, scale_exp, quiet })
+    (0u16..256, prop_oneof![2 => 1u16..=8, 3 => 9u16..=64, 1 => 65u16..=255, 1 => Just(256u16)], 30u16..200, any::<u64>(), 0u8..5, prop_oneof![3 => -8i8..=8, 2 => -120i8..=120], prop_oneof![10 => Just(0u8), 1 => Just(1u8), 1 => Just(2u8)]).prop_map(|(start, len, bins, seed, noise_kind, scale_exp, quiet)| BlockCase { start, len, bins, seed, noise_kind, scale_exp, quiet })
 }
 
 // ------------------------------------------------------------------ isolated pulse
